@@ -274,6 +274,24 @@ def sec_classic(chk):
                     inverse=False)
         for alpha, beta in ((2., 1.5), (0.7, 3.)):
             compare(f"GammaOperator(alpha={alpha}, beta={beta})", ift.GammaOperator(dom, alpha=alpha, beta=beta), stats.gamma.ppf(p, alpha, scale=1. / beta), 1e-7, inverse=False)
+        # every documented parametrisation of the same distribution: (alpha, theta) and (mean, var) as well; field-valued scale parameters
+        for alpha, theta in ((2., 0.75), (0.7, 3.)):
+            compare(f"GammaOperator(alpha={alpha}, theta={theta})", ift.GammaOperator(dom, alpha=alpha, theta=theta), stats.gamma.ppf(p, alpha, scale=theta), 1e-7, inverse=False)
+        for mean, var in ((2., 0.5), (0.5, 0.4), (3., 3.)):      # (shape parameters 8, 0.625, 3; smaller shapes exceed the table accuracy in the far tail)
+            th, al = var / mean, mean * mean / var
+            compare(f"GammaOperator(mean={mean}, var={var})", ift.GammaOperator(dom, mean=mean, var=var), stats.gamma.ppf(p, al, scale=th), 1e-7, inverse=False)
+            op = ift.GammaOperator(dom, mean=mean, var=var)
+            cases += 1
+            if not (np.isclose(op.mean, mean) and np.isclose(op.var, var)):
+                fails.append(dict(case=f"GammaOperator(mean={mean}, var={var}): the reported mean/var differ from the request", detail=f"{op.mean}, {op.var}"))
+        thf = ift.makeField(dom, np.linspace(0.5, 2.5, dom.size))
+        compare("GammaOperator(alpha=2, theta=<field>)", ift.GammaOperator(dom, alpha=2., theta=thf), stats.gamma.ppf(p, 2., scale=thf.asnumpy()), 1e-7, inverse=False)
+        compare("GammaOperator(alpha=2, beta=<field>)", ift.GammaOperator(dom, alpha=2., beta=thf), stats.gamma.ppf(p, 2., scale=1. / thf.asnumpy()), 1e-7, inverse=False)
+        compare("InverseGammaOperator(alpha=1.5, q=<field>)", ift.InverseGammaOperator(dom, 1.5, thf), stats.invgamma.ppf(p, 1.5, scale=thf.asnumpy()), 1e-7, inverse=False)
+        for mode, mean in ((1.5, 3.), (0.2, 0.9)):
+            al = 2. / (mean / mode - 1.) + 1.          # from mode = q / (alpha + 1), mean = q / (alpha - 1)
+            qq = mode * (al + 1.)
+            compare(f"InverseGammaOperator(mode={mode}, mean={mean})", ift.InverseGammaOperator(dom, mode=mode, mean=mean), stats.invgamma.ppf(p, al, scale=qq), 1e-7, inverse=False)
         for a, b in ((2., 3.), (0.5, 0.5)):
             compare(f"BetaOperator(a={a}, b={b})", ift.BetaOperator(dom, a, b), stats.beta.ppf(p, a, b), 1e-6, inverse=False)
         # mean/mode parametrisations of the inverse gamma operator
